@@ -416,3 +416,7 @@ def run(ctx):
     call_compat(ctx, 'R08.8', ['nbdime.nbmergeapp', 'nbdime.vcs.git.mergedriver', 'nbdime.utils', 'nbdime.args'] if ctx.tier == 'quick' else ['nbdime.'], 'the command dies with a traceback (non-zero, but for a reason unrelated to conflicts)')
     from ..names import name_binding
     name_binding(ctx, 'R08.9', ['nbdime.nbmergeapp', 'nbdime.vcs.git.mergedriver', 'nbdime.utils', 'nbdime.args'] if ctx.tier == 'quick' else ['nbdime.'])
+
+
+from .extra import with_extra  # noqa: E402
+run = with_extra('C08', run)
